@@ -9,7 +9,7 @@ From Pq Require Import Format.Nested Impl.CAssemble Impl.CAssembleFixed Proofs.N
   Proofs.CAssemblePagesProofs Proofs.NestedMapProofs Proofs.NestedInvProofs
   Proofs.CAssembleTightProofs Proofs.CAssembleFixedProofs Proofs.CAssembleV2Proofs
   Proofs.NestedStructProofs Proofs.CAssemblePyProofs
-  Proofs.PyDictProofs Proofs.NestedPageProofs Proofs.HybridProofs Codec.Hybrid Base.Bytes.
+  Proofs.PyDictProofs Proofs.NestedPageProofs Proofs.HybridProofs Proofs.CAssembleEmptyProofs Codec.Hybrid Base.Bytes.
 Import ListNotations.
 Open Scope N_scope.
 
@@ -311,3 +311,23 @@ Example C15_nonvacuous_v2_map :
   shred_map sh rows = (([(0,2);(1,2);(0,0);(0,1);(0,2)], [1;2;3]), ([(0,3);(1,2);(0,0);(0,1);(0,3)], [10;30])) /\
   assemble_map_spec sh (fst (shred_map sh rows)) (snd (shred_map sh rows)) = Some rows.
 Proof. vm_compute. repeat split; try reflexivity; try discriminate. Qed.
+
+(* ---- wave 3: data pages with ZERO entries are neutral, v1 (repaired page loop) and v2, whatever the other pages are ---- *)
+Theorem C15_empty_pages_neutral_v1 : forall (V : Type) null md (pages : list (page V)) a i,
+  read_col_v1_py null md a i pages = read_col_v1_py null md a i (drop_empty pages).
+Proof. intros V. exact (@read_col_v1_py_drop_empty V). Qed.
+Print Assumptions C15_empty_pages_neutral_v1.
+
+Theorem C15_empty_pages_neutral_v2 : forall (V : Type) null md (pages : list (page V * nat)) a idx,
+  read_col_v2 null md a idx pages = read_col_v2 null md a idx (filter has_entries2 pages).
+Proof. intros V. exact (@read_col_v2_drop_empty V). Qed.
+Print Assumptions C15_empty_pages_neutral_v2.
+
+(* C15_pages_full with zero-entry pages anywhere in the chunk *)
+Theorem C15_pages_full_with_empty :
+  forall (V : Type) (sh : shape) (es : list entry) (vs : list V) (rows : list (row V)) (pages : list (page V)),
+    assemble_spec sh es vs = Some rows ->
+    pages_stream (drop_empty pages) = (es, vs) -> pages_aligned sh (drop_empty pages) = true ->
+    run_v1_py sh (length rows) pages = AOk rows.
+Proof. exact pages_v1_full_with_empty. Qed.
+Print Assumptions C15_pages_full_with_empty.
